@@ -331,6 +331,27 @@ theorem iterClause_model (m : MState) (s : Store String) (hl : Link m s) (k : Ke
             exact ⟨by simp [iterClause, hi, hsp, hn.1, hn2], by simp⟩
           · exact ⟨by simp [iterClause, hi, hsp], by simp⟩
 
+theorem dataBytes_eq_total {α} (sz : α → Nat) : ∀ l : List α, dataBytes sz l = total sz l
+  | [] => rfl
+  | d :: t => by simp only [dataBytes, total_cons, dataBytes_eq_total sz t]
+
+/-- Under the per-stream invariant `validate`'s count is the sum of the streams' `size` fields. -/
+theorem retainedBytes_eq_sumSizes {α} (sz : α → Nat) : ∀ (st : List (Key × DL α)), AllInv sz st →
+    retainedBytes sz st = sumSizes st
+  | [], _ => rfl
+  | (k, dl) :: t, h => by
+    have h1 : DLInv sz dl := h (k, dl) (by simp)
+    have h2 : AllInv sz t := fun p hp => h p (by simp [hp])
+    simp only [retainedBytes, sumSizes_cons, dataBytes_eq_total, retainedBytes_eq_sumSizes sz t h2, h1.1]
+
+/-- **validate_never_panics.**  `MemoryEventStore.validate` — the store's own consistency check, compiled out
+in /repo — would never fire: after ANY history of exported calls the bytes counted from the retained data
+equal `nBytes`. -/
+theorem validate_never_panics {α} (sz : α → Nat) (ops : List (Op α)) :
+    ∃ s os, run sz init ops = some (s, os) ∧ validate sz s = some () := by
+  obtain ⟨s, os, e, ⟨hinv, hacc, _⟩, _⟩ := reachable sz ops
+  exact ⟨s, os, e, by simp [validate, retainedBytes_eq_sumSizes sz s.store hinv, hacc]⟩
+
 /-- One record. -/
 theorem rec_accepts (m : MState) (s : Store String) (hl : Link m s) (r : Rec) :
     ∃ s' obs, recStep s r = some (s', obs) ∧ (monStep m r obs).2 = none ∧ Link (monStep m r obs).1 s' := by
@@ -358,7 +379,7 @@ theorem rec_accepts (m : MState) (s : Store String) (hl : Link m s) (r : Rec) :
       cases hc : m.maxCfg with
       | none => rfl
       | some n => simp [hl.max n hc]
-    rw [hm, hl.last]; simp [hb]
+    rw [hm, hl.last, retainedBytes_eq_sumSizes psz s.store hl.inv.1, ← hl.inv.2.1]; simp [hb]
   | concurrent => exact ⟨s, _, rfl, by simp [monStep], hl⟩
 
 theorem runMonFrom_accepts : ∀ (rs : List Rec) (m : MState) (s : Store String) (j : Nat), Link m s →
